@@ -443,6 +443,26 @@ func (v *vCtx) runOp(ctx context.Context, op map[string]any) (res map[string]any
 			res["err"] = err.Error()
 		}
 		return
+	case "http_pusher_round":
+		// one round of the background http-pusher service on this goroutine (in the server it runs outside every interceptor:
+		// a panic there ends the process); the pushers it starts are cancelled right away
+		cctx, cancel := context.WithCancel(ctx)
+		hp := &httpPusher{}
+		if err := hp.Initialize(cctx, v.client); err != nil {
+			v.t.Fatal(err)
+		}
+		defer func() {
+			cancel()
+			for _, mon := range hp.pushers {
+				mon.cancel()
+				_ = mon.Wait()
+			}
+		}()
+		if err := hp.startPushersOnce(cctx); err != nil {
+			res["err"] = err.Error()
+		}
+		res["pushers"] = len(hp.pushers)
+		return
 	case "parse_interval":
 		d, err := sqltypes.ParsePostgreSQLInterval(op["s"].(string))
 		if err != nil {
